@@ -551,6 +551,7 @@ MSWEEP_FAMILIES = [
     ('rel', [':has(> p)', 'div > p', 'p ~ a', ':not(div p)', ':is(p, a):first-child', 'li:has(+ li.a)']),
     ('root', [':root', ':root > body', 'html:first-child', ':root :link']),
 ]
+MSWEEP_ERROR_PATTERNS = ['div >\n  p:nth-child(foo)\n  , a', 'ul li\n a[href\n=x', 'p,\n\n,a', ':is(p, :not(\n  span!))\n', 'div > p.a:lang(en)']
 MSWEEP_BATCH = 40
 
 
@@ -574,6 +575,13 @@ def msweep_pairs():
         pairs.append((fam, q('match', k0, 1, 12, 'module'), q('select', k0, 0, -1, 'compiled'), None))
         if len(pats) > 2:
             pairs.append((fam, q('select', base + 2, 1), q('closest', base + 2, 0, 14), q('filter', k0, 0)))
+    # the error / diagnostic path of compilation: two threads being told what is wrong with their (different or same)
+    # malformed patterns at the same time; each must get the message, context, line and column of its own pattern
+    base = len(keys)
+    keys.extend({'pattern': p_, 'ns': None, 'custom': None, 'flags': 0} for p_ in MSWEEP_ERROR_PATTERNS)
+    c = lambda k: {'op': 'compile', 'key': base + k}  # noqa: E731
+    pairs.extend([('error', c(0), c(1), None), ('error', c(0), c(0), None), ('error', c(1), c(2), c(0)),
+                  ('error', c(2), c(4), None), ('error', c(4), c(0), None), ('error', c(3), c(1), c(2))])
     return keys, pairs
 
 
